@@ -188,6 +188,37 @@ def h_numbered_bad(E, idx):
         return type(e).__name__
 
 
+def h_numbered_language(E, heads_key):
+    """no length bound: the language of numbered_vars_regexp(heads) over printable ASCII strings equals  head _{ (0 | -?[1-9][0-9]*) }"""
+    import z3
+    from symx import rx
+    from mitxgraders.helpers.math_helpers import numbered_vars_regexp
+    heads = {'one': ['a'], 'two': ['b', 'Cat'], 'prefixes': ['x', 'xy', 'x_1'], 'special': ['a.b', 'c+']}[heads_key]
+    pat = numbered_vars_regexp(heads).pattern
+    code = rx.match_language(pat)
+    lit = lambda t: z3.Re(z3.StringVal(t))   # noqa
+    digit, nz = z3.Range('0', '9'), z3.Range('1', '9')
+    num = z3.Union(lit('0'), z3.Concat(z3.Option(lit('-')), nz, z3.Star(digit)))
+    hs_ = [lit(h) for h in heads]
+    spec = z3.Concat(z3.Union(hs_) if len(hs_) > 1 else hs_[0], lit('_{'), num, lit('}'))
+    ascii_ = z3.Star(z3.Range(' ', '~'))      # printable ASCII: names reaching the regexp come from the parser and contain no control characters
+    # (with '$' the pattern also accepts a trailing newline, which no parsed name can contain)
+    verdict, w = rx.language_difference(z3.Intersect(code, ascii_), z3.Intersect(spec, ascii_))
+    if verdict == 'differ':
+        import re
+        w = rx.z3_unescape(w)
+        m = numbered_vars_regexp(heads).match(w)
+        in_spec = re.fullmatch('(?:%s)_{(?:0|-?[1-9][0-9]*)}' % '|'.join(map(re.escape, heads)), w) is not None
+        E.check('numbered-regexp-language-is-exactly-the-instances', (m is not None) == in_spec)
+        E.note('witness', w)
+    else:
+        E.check('numbered-regexp-language-is-exactly-the-instances', verdict == 'equal')
+    # the two capture groups are the full name and the head
+    m = numbered_vars_regexp(heads).match(heads[-1] + '_{-12}')
+    E.check('captures-full-name-and-head', m is not None and m.groups() == (heads[-1] + '_{-12}', heads[-1]))
+    return verdict
+
+
 def harnesses(tier):
     hs = []
     T = tier == 'thorough'
@@ -206,6 +237,8 @@ def harnesses(tier):
         add(h_chain, 'chain', dict(length=5, reverse=rev), 'chain of 5 through FormulaGrader')
     for case in ('same', 'extra', 'collide'):
         add(h_numbered, 'numbered', dict(case=case), 'numbered instances with negative / multi-digit indices')
+    for hk in ('one', 'two', 'prefixes', 'special'):
+        add(h_numbered_language, 'numbered_language', dict(heads=hk), 'regex language over all printable-ASCII strings, no length bound', validate=False)
     for i in range(len(BAD_NUMBERED)):
         add(h_numbered_bad, 'numbered_bad', dict(i=i), repr(BAD_NUMBERED[i]))
     return hs
